@@ -341,5 +341,7 @@ def write_evidence(prop, tier, seed, sel, results, level_text, assumptions, outs
     cov['rule'] = ('one evaluation = one contract condition decided by CrossHair over all paths (or one sentinel identity '
                    'check) on the real constructor; distinct = distinct (estimator, obligation)')
     cov['samples'] = [{'case': pc['case'], 'obligations': pc.get('concrete_obligation_names', [])[:8]} for pc in per_case[:6]]
-  os.makedirs(os.path.join(VERIF, 'evidence'), exist_ok=True)
-  json.dump(ev, open(os.path.join(VERIF, 'evidence', prop + '.json'), 'w'), indent=1)
+  # evidence/ describes /repo itself; a run redirected at a scratch copy (seed matrix, VERIF_REPO) writes elsewhere
+  evdir = os.path.join(VERIF, 'evidence') if os.path.realpath(REPO) == '/repo' else os.path.join(VERIF, '.work', 'evidence_scratch')
+  os.makedirs(evdir, exist_ok=True)
+  json.dump(ev, open(os.path.join(evdir, prop + '.json'), 'w'), indent=1)
